@@ -4,7 +4,7 @@
    given or not; pool transforms that map scalars to scalars, or raise). *)
 From Coq Require Import List ZArith Bool Arith Lia.
 From SC Require Import Base.Res Base.PyList Inst.Heap Inst.ClassTable Inst.Model Inst.Canon
-  Inst.Abs Inst.SpecHelpers Inst.ElemProofs Inst.Framed Inst.RefineProofs Inst.CopyProofs Inst.ElemRefine
+  Inst.Abs Inst.SpecHelpers Inst.ElemProofs Inst.Framed Inst.RefineProofs Inst.CopyProofs Inst.ElemRefineDep Inst.ElemRefine
   Inst.ElemRefine2.
 Import ListNotations.
 Open Scope nat_scope.
@@ -132,7 +132,7 @@ Section ChangeItemList.
   Hypothesis Ha : lookup_attr k a = Some sp.
   Hypothesis Hd : NoDup (map fst d).
   Hypothesis Hfz : c_frozen k = false.
-  Hypothesis Hni : no_inval k.
+  Hypothesis Hni : no_dep k a.
   Hypothesis Hty : a_ty sp = TList ity.
   Hypothesis Hdepth : ty_depth ity < FUEL.
   Hypothesis Hfld : assoc a d = Some (VRef lc).
